@@ -160,3 +160,194 @@ Theorem C11_gc_preserves_recovery : forall d acked,
   InvE (fst (do_gc d)) acked /\ all_crash (fun i => Good i acked) (pd_img d) (snd (do_gc d)).
 Proof. exact gc_preserves_recovery. Qed.
 Print Assumptions C11_gc_preserves_recovery.
+
+(** * File names ([model/Names.v]): naming and recognition of directory entries *)
+From Coq Require Import String.
+From RainVerif.model Require Import Bytes Names.
+From RainVerif.proofs Require Import NamesProofs.
+Open Scope N_scope.
+
+(** ** T1: decimal printing *)
+
+(** the digits of a [u64]: non-empty, ASCII digits only, no leading zero unless the number is 0,
+    read back by [parse_digits] and by [parse_u64] (and worth the number) *)
+Theorem C11_names_digits : forall n, n < 2 ^ 64 ->
+  digits n <> [] /\ Forall is_digit (digits n) /\
+  (forall r, digits n = 48 :: r -> n = 0) /\
+  parse_digits (digits n) 0 = Some n /\ parse_u64 (digits n) = Some n /\ dec_val (digits n) 0 = n.
+Proof. exact digits_props. Qed.
+Print Assumptions C11_names_digits.
+
+Theorem C11_names_digits_zero : digits 0 = [48].
+Proof. exact digits_zero. Qed.
+Print Assumptions C11_names_digits_zero.
+
+(** what [parse_u64] accepts, exactly: an optional '+', then at least one digit, value < 2^64 *)
+Theorem C11_names_parse_u64_iff : forall ds n,
+  parse_u64 ds = Some n <->
+  exists body, (ds = body \/ ds = 43 :: body) /\ body <> [] /\ Forall is_digit body /\
+               dec_val body 0 = n /\ n < 2 ^ 64.
+Proof. exact parse_u64_some_iff. Qed.
+Print Assumptions C11_names_parse_u64_iff.
+
+(** ** T2: round trip *)
+
+Theorem C11_names_round_trip : forall k, kind_ok k -> parse_name (file_name k) = Some k.
+Proof. exact parse_file_name. Qed.
+Print Assumptions C11_names_round_trip.
+
+(** ** T3: injectivity — two different files never get the same name *)
+
+Theorem C11_names_injective : forall k1 k2, kind_ok k1 -> kind_ok k2 ->
+  file_name k1 = file_name k2 -> k1 = k2.
+Proof. exact file_name_injective. Qed.
+Print Assumptions C11_names_injective.
+
+(** in particular files of different kinds differ even when their numbers agree *)
+Theorem C11_names_kinds_differ : forall n m, n < 2 ^ 64 -> m < 2 ^ 64 ->
+  file_name (KTable n) <> file_name (KTemp m) /\
+  file_name (KManifest n) <> file_name (KWal m) /\
+  file_name (KTable n) <> file_name (KWal m) /\
+  file_name (KTable n) <> file_name (KManifest m) /\
+  file_name (KTemp n) <> file_name (KWal m) /\
+  file_name (KTemp n) <> file_name (KManifest m).
+Proof. exact file_name_kinds_differ. Qed.
+Print Assumptions C11_names_kinds_differ.
+
+(** every name is 7-bit ASCII *)
+Theorem C11_names_names_ascii : forall k, kind_ok k -> Forall (fun b => b < 128) (file_name k).
+Proof. exact file_name_ascii. Qed.
+Print Assumptions C11_names_names_ascii.
+
+(** ** T4: what is recognised — exactly [file_name k] up to the spelling of the number *)
+
+Theorem C11_names_recognised_iff : forall s k,
+  parse_name s = Some k <->
+  match k with
+  | KCurrent => s = ascii_CURRENT
+  | KLock => s = ascii_LOCK
+  | KManifest n =>
+      exists ds, parse_u64 ds = Some n /\ s = ascii_MANIFEST_dash ++ ds ++ [DOT] ++ ext_manifest
+  | KWal n => exists ds, parse_u64 ds = Some n /\ s = ascii_wal_dash ++ ds ++ [DOT] ++ ext_log
+  | KTable n => exists ds, parse_u64 ds = Some n /\ s = ds ++ [DOT] ++ ext_rdb
+  | KTemp n => exists ds, parse_u64 ds = Some n /\ s = ds ++ [DOT] ++ ext_dbtemp
+  end.
+Proof. exact parse_name_iff. Qed.
+Print Assumptions C11_names_recognised_iff.
+
+(** for the four numbered shapes the verdict is that of [parse_u64] on the number part, whatever
+    that part is (empty, signed, too large, not a number) *)
+Theorem C11_names_numbered_shapes : forall ds,
+  parse_name (ascii_MANIFEST_dash ++ ds ++ [DOT] ++ ext_manifest) = option_map KManifest (parse_u64 ds) /\
+  parse_name (ascii_wal_dash ++ ds ++ [DOT] ++ ext_log) = option_map KWal (parse_u64 ds) /\
+  parse_name (ds ++ [DOT] ++ ext_rdb) = option_map KTable (parse_u64 ds) /\
+  parse_name (ds ++ [DOT] ++ ext_dbtemp) = option_map KTemp (parse_u64 ds).
+Proof. exact parse_name_numbered. Qed.
+Print Assumptions C11_names_numbered_shapes.
+
+(** a recognised entry carries a [u64], and the canonical name of its kind is recognised alike *)
+Theorem C11_names_recognised_kind_ok : forall s k, parse_name s = Some k -> kind_ok k.
+Proof. exact parse_name_kind_ok. Qed.
+Print Assumptions C11_names_recognised_kind_ok.
+
+Theorem C11_names_recognised_canonical : forall s k,
+  parse_name s = Some k -> parse_name (file_name k) = Some k.
+Proof. exact parse_name_canonical. Qed.
+Print Assumptions C11_names_recognised_canonical.
+
+(** ** T5: what is rejected *)
+
+Theorem C11_names_rejects_empty : parse_name [] = None.
+Proof. exact parse_name_empty. Qed.
+Print Assumptions C11_names_rejects_empty.
+
+Theorem C11_names_rejects_dotless : forall s,
+  ~ In DOT s -> s <> ascii_CURRENT -> s <> ascii_LOCK -> parse_name s = None.
+Proof. exact parse_name_nodot. Qed.
+Print Assumptions C11_names_rejects_dotless.
+
+(** digit strings worth 2^64 or more, with or without a '+', in all four shapes *)
+Theorem C11_names_rejects_overflow : forall ds, Forall is_digit ds -> 2 ^ 64 <= dec_val ds 0 ->
+  forall ds', ds' = ds \/ ds' = 43 :: ds ->
+  parse_name (ascii_MANIFEST_dash ++ ds' ++ [DOT] ++ ext_manifest) = None /\
+  parse_name (ascii_wal_dash ++ ds' ++ [DOT] ++ ext_log) = None /\
+  parse_name (ds' ++ [DOT] ++ ext_rdb) = None /\
+  parse_name (ds' ++ [DOT] ++ ext_dbtemp) = None.
+Proof. exact parse_name_overflow. Qed.
+Print Assumptions C11_names_rejects_overflow.
+
+Theorem C11_names_rejects_empty_number :
+  parse_name (ascii_MANIFEST_dash ++ [DOT] ++ ext_manifest) = None /\
+  parse_name (ascii_wal_dash ++ [DOT] ++ ext_log) = None /\
+  parse_name ([DOT] ++ ext_rdb) = None /\
+  parse_name ([DOT] ++ ext_dbtemp) = None.
+Proof. exact parse_name_empty_number. Qed.
+Print Assumptions C11_names_rejects_empty_number.
+
+(** ** examples *)
+
+(** the model's byte constants spell what the code writes *)
+Example C11_names_ex_spelling :
+  file_name KCurrent = str "CURRENT" /\ file_name KLock = str "LOCK" /\
+  file_name (KManifest 5) = str "MANIFEST-5.manifest" /\ file_name (KWal 12) = str "wal-12.log" /\
+  file_name (KTable 7) = str "7.rdb" /\ file_name (KTemp 7) = str "7.dbtemp" /\
+  file_name (KTable 0) = str "0.rdb" /\
+  file_name (KTable 18446744073709551615) = str "18446744073709551615.rdb".
+Proof. vm_compute. repeat split. Qed.
+
+(** a leading '+' and leading zeros are accepted: such entries alias the canonical names *)
+Example C11_names_ex_plus : parse_name (str "wal-+7.log") = Some (KWal 7).
+Proof. reflexivity. Qed.
+Example C11_names_ex_leading_zeros : parse_name (str "007.rdb") = Some (KTable 7).
+Proof. reflexivity. Qed.
+Example C11_names_ex_plus_zeros_manifest : parse_name (str "MANIFEST-+0005.manifest") = Some (KManifest 5).
+Proof. reflexivity. Qed.
+Example C11_names_ex_max : parse_name (str "18446744073709551615.rdb") = Some (KTable 18446744073709551615).
+Proof. reflexivity. Qed.
+
+(** rejected *)
+Example C11_names_ex_overflow : parse_name (str "18446744073709551616.rdb") = None.
+Proof. reflexivity. Qed.
+Example C11_names_ex_wal_no_number : parse_name (str "wal-.log") = None.
+Proof. reflexivity. Qed.
+Example C11_names_ex_only_extension : parse_name (str ".rdb") = None.
+Proof. reflexivity. Qed.
+Example C11_names_ex_more_rejects :
+  parse_name (str "") = None /\ parse_name (str "wal") = None /\ parse_name (str "7") = None /\
+  parse_name (str "CURRENT.rdb") = None /\ parse_name (str "current") = None /\
+  parse_name (str "7.rdb.dbtemp") = None /\ parse_name (str "-7.rdb") = None /\
+  parse_name (str "++7.rdb") = None /\ parse_name (str "+.rdb") = None /\
+  parse_name (str "7 .rdb") = None /\ parse_name (str "7.") = None /\ parse_name (str "7.RDB") = None /\
+  parse_name (str "5.manifest") = None /\ parse_name (str "MANIFEST-5.log") = None /\
+  parse_name (str "wal-5.rdb") = None /\ parse_name (str "MANIFEST-5") = None /\
+  parse_name (str "..") = None /\ parse_name (str "7..rdb") = None.
+Proof. vm_compute. repeat split. Qed.
+
+(** ** false of the model *)
+
+(** [parse_name] is not a strict inverse of [file_name]: non-canonical spellings are recognised *)
+Example C11_names_strict_inverse_refuted :
+  exists s k, parse_name s = Some k /\ s <> file_name k.
+Proof. exists (str "007.rdb"), (KTable 7). split; [reflexivity|discriminate]. Qed.
+
+(** so two distinct directory entries can be taken for the same file *)
+Example C11_names_recognition_injective_refuted :
+  exists s1 s2 k, s1 <> s2 /\ parse_name s1 = Some k /\ parse_name s2 = Some k.
+Proof.
+  exists (str "wal-7.log"), (str "wal-+7.log"), (KWal 7).
+  split; [discriminate|split; reflexivity].
+Qed.
+
+(** the [u64] bound of T2 is needed: the printed name of 2^64 is not recognised *)
+Example C11_names_round_trip_unbounded_refuted :
+  exists k, parse_name (file_name k) <> Some k.
+Proof. exists (KTable (2 ^ 64)). vm_compute. discriminate. Qed.
+
+(** the bound of T3 is needed on the model (an artefact of [digits]' fuel of 25 digits, far above
+    [u64]): numbers of 26 digits and more lose their leading digits *)
+Example C11_names_injective_unbounded_refuted :
+  exists k1 k2, k1 <> k2 /\ file_name k1 = file_name k2.
+Proof.
+  exists (KTable (10 ^ 25 + 5)), (KTable (2 * 10 ^ 25 + 5)).
+  split; [vm_compute; discriminate|reflexivity].
+Qed.
